@@ -7,6 +7,8 @@ package c15
 
 import (
 	"bytes"
+	"crypto/ecdsa"
+	"crypto/rsa"
 	"crypto/sha1"
 	"crypto/x509"
 	"crypto/x509/pkix"
@@ -54,6 +56,7 @@ func objects(x *mon.Ctx, sha1Mode bool) {
 	if sha1Mode {
 		n = x.Scale(40, 400)
 	}
+	ordK, ordKS := map[string]int{}, map[string]int{} // ordinal of the object among those of its kind / of its kind and signer kind
 	for i := 0; i < n; i++ {
 		kind := objKinds[i%len(objKinds)]
 		// signer kind cycles so that every (object kind, signer kind) pair is visited early
@@ -64,18 +67,69 @@ func objects(x *mon.Ctx, sha1Mode bool) {
 		if kind == "cfca-csr" && sha1Mode {
 			kind = "csr"
 		}
+		plan := planKeys(kind, sk, ordK[kind], ordKS[kind+sk.String()])
+		ordK[kind]++
+		ordKS[kind+sk.String()]++
 		for p := 0; p < sweepParts; p++ {
-			c := x.Begin("object #%d part %d/%d kind=%s signer=%v sha1=%v (template, keys and algorithm from the PRNG of (seed, workload, object number), the same in all parts; "+
-				"this part applies the 4 substitutions at the DER offsets = %d mod %d%s)", i, p, sweepParts, kind, sk, sha1Mode, p, sweepParts,
+			c := x.Begin("object #%d part %d/%d kind=%s signer=%v sha1=%v keys: %s (template, PRNG keys and algorithm from the PRNG of (seed, workload, object number), the same in all parts; "+
+				"this part applies the 4 substitutions at the DER offsets = %d mod %d%s)", i, p, sweepParts, kind, sk, sha1Mode, plan, p, sweepParts,
 				map[bool]string{true: "; P-384 issuer: only every 4th of those", false: ""}[sk == kP384])
 			if c == nil {
 				continue
 			}
+			curPlan = plan
 			runObject(c, x.Seed, x.Workload, i, p, kind, sk, sha1Mode)
 			c.End()
 		}
 	}
 }
+
+// keyPlan says which keys of an object are structured keys (structkeys.go) instead of
+// keys drawn from the PRNG. It is a function of the object number only, so that every
+// run, whatever its seed, serialises every class of short coordinate in every role.
+type keyPlan struct {
+	signer  int     // class of the signer key (issuer key, CSR key, self-signed subject key); -1: from the PRNG
+	second  int     // class of the certificate subject key / CFCA temporary key; -1: from the PRNG
+	secKind keyKind // kind of the structured second key
+}
+
+func (p keyPlan) String() string {
+	s := "signer=prng"
+	if p.signer >= 0 {
+		s = "signer=" + structClass(p.signer).String()
+	}
+	if p.second >= 0 {
+		return s + fmt.Sprintf(" subject/temporary=%v-%v", p.secKind, structClass(p.second))
+	}
+	return s + " subject/temporary=prng"
+}
+
+func planKeys(kind string, sk keyKind, ordK, ordKS int) keyPlan {
+	const n = int(nStructClasses)
+	p := keyPlan{signer: -1, second: -1}
+	if (sk == kSM2 || sk == kP256) && ordKS%2 == 1 {
+		p.signer = (ordKS / 2) % n
+	}
+	switch kind {
+	case "cert": // every second certificate gets a structured subject key, SM2 and P-256 in turn
+		if ordK%2 == 0 {
+			p.secKind = []keyKind{kSM2, kP256}[(ordK/2)%2]
+			p.second = (ordK / 4) % n
+		}
+	case "cfca-csr": // SM2 requests: the temporary key runs through all classes, then one from the PRNG
+		if sk == kSM2 {
+			if cl := ordKS % (n + 1); cl < n {
+				if cl == p.signer {
+					cl = (cl + 1) % n
+				}
+				p.secKind, p.second = kSM2, cl
+			}
+		}
+	}
+	return p
+}
+
+var curPlan keyPlan
 
 // libR is the random source handed to the library during the current case. It is a
 // stream of its own: the library consumes a non-reproducible number of bytes
@@ -112,6 +166,9 @@ func runObject(c *mon.Case, seed uint64, workload string, i, part int, kind stri
 	if err != nil {
 		c.Fail("reject", "key generation: %v", err)
 		return
+	}
+	if curPlan.signer >= 0 {
+		signer = structKey(sk, structClass(curPlan.signer))
 	}
 	var alg x509.SignatureAlgorithm
 	if ch := sigAlgChoices(signer, sha1Mode); len(ch) > 0 {
@@ -208,13 +265,19 @@ func certObject(c *mon.Case, selfSigned bool, signer key, alg x509.SignatureAlgo
 			c.Fail("reject", "key generation: %v", err)
 			return
 		}
+		if curPlan.second >= 0 {
+			subj = structKey(curPlan.secKind, structClass(curPlan.second))
+		}
 		tmpl = genCertTemplate(r, r.Intn(4) == 0, uniq)
 		tmpl.SignatureAlgorithm = alg
 		if !c.Call("CreateCertificate", func() { der, err = smx509.CreateCertificate(libR, tmpl, parent, subj.pub, signer.priv) }) {
 			return
 		}
 	}
-	c.Class("cert/self=%v/signer=%v/alg=%s/subject=%v/ca=%v/nc=%v", selfSigned, signer.kind, algName(alg), subj.kind, tmpl.IsCA && tmpl.BasicConstraintsValid, hasConstraints(tmpl))
+	c.Class("cert/self=%v/signer=%v%s/alg=%s/subject=%v%s/ca=%v/nc=%v", selfSigned, signer.kind, signer.note, algName(alg), subj.kind, subj.note, tmpl.IsCA && tmpl.BasicConstraintsValid, hasConstraints(tmpl))
+	if curPart == 0 && signer.note+subj.note != "" {
+		c.Event("structured_keys_serialised/cert", 1)
+	}
 	if err != nil {
 		c.Fail("reject", "CreateCertificate refused a well-formed template (signer %v alg %s subject %v): %v", signer.kind, algName(alg), subj.kind, err)
 		return
@@ -366,9 +429,11 @@ func checkCertFields(c *mon.Case, t *x509.Certificate, issuer *smx509.Certificat
 	if _, err := asn1.Unmarshal(p.RawSubjectPublicKeyInfo, &spki); err != nil {
 		c.Fail("mismatch", "RawSubjectPublicKeyInfo of a created certificate is not a SubjectPublicKeyInfo: %v", err)
 	} else {
+		// the subjectPublicKey bits must be the standard fixed-width encoding of the template's key
+		c.Eq("subjectPublicKey BIT STRING", spki.Key.Bytes, pubBytes(subj))
 		want := t.SubjectKeyId
 		if len(want) == 0 && t.IsCA {
-			h := sha1.Sum(spki.Key.Bytes)
+			h := sha1.Sum(pubBytes(subj)) // RFC 5280 4.2.1.2 method 1, computed from the template's key
 			want = h[:]
 		}
 		c.Eq("SubjectKeyId", p.SubjectKeyId, want)
@@ -632,7 +697,10 @@ func csrObject(c *mon.Case, signer key, alg x509.SignatureAlgorithm, uniq string
 	r := genR
 	t := genCSRTemplate(r, uniq)
 	t.SignatureAlgorithm = alg
-	c.Class("csr/signer=%v/alg=%s/sans=%v/ext=%d", signer.kind, algName(alg), len(t.DNSNames)+len(t.EmailAddresses)+len(t.IPAddresses)+len(t.URIs) > 0, len(t.ExtraExtensions))
+	if curPart == 0 && signer.note != "" {
+		c.Event("structured_keys_serialised/csr", 1)
+	}
+	c.Class("csr/signer=%v%s/alg=%s/sans=%v/ext=%d", signer.kind, signer.note, algName(alg), len(t.DNSNames)+len(t.EmailAddresses)+len(t.IPAddresses)+len(t.URIs) > 0, len(t.ExtraExtensions))
 	var der []byte
 	var err error
 	if !c.Call("CreateCertificateRequest", func() { der, err = smx509.CreateCertificateRequest(libR, t, signer.priv) }) {
@@ -707,6 +775,15 @@ func checkCSRFields(c *mon.Case, t *x509.CertificateRequest, p *smx509.Certifica
 	if !signer.samePublic(p.PublicKey) {
 		c.Fail("mismatch", "created request parses back with a different public key (%T)", p.PublicKey)
 	}
+	var spki struct {
+		Algo pkix.AlgorithmIdentifier
+		Key  asn1.BitString
+	}
+	if _, err := asn1.Unmarshal(p.RawSubjectPublicKeyInfo, &spki); err != nil {
+		c.Fail("mismatch", "RawSubjectPublicKeyInfo of a created request is not a SubjectPublicKeyInfo: %v", err)
+	} else {
+		c.Eq("CSR subjectPublicKey BIT STRING", spki.Key.Bytes, pubBytes(signer))
+	}
 	for _, e := range t.ExtraExtensions {
 		found := false
 		for _, pe := range p.Extensions {
@@ -723,6 +800,21 @@ func checkCSRFields(c *mon.Case, t *x509.CertificateRequest, p *smx509.Certifica
 
 // ---- CFCA requests ----
 
+func pubString(p any) string {
+	switch k := p.(type) {
+	case nil:
+		return "nil"
+	case *ecdsa.PublicKey:
+		if k == nil {
+			return "nil *ecdsa.PublicKey"
+		}
+		return fmt.Sprintf("EC X=%064x Y=%064x", k.X, k.Y)
+	case *rsa.PublicKey:
+		return fmt.Sprintf("RSA N=%x.. E=%d", k.N.Bytes()[:8], k.E)
+	}
+	return fmt.Sprintf("%T", p)
+}
+
 func cfcaObject(c *mon.Case, signer key, alg x509.SignatureAlgorithm, uniq string) {
 	r := genR
 	t := &x509.CertificateRequest{Subject: genName(r, r.Range(1, 4), uniq), SignatureAlgorithm: alg}
@@ -730,17 +822,23 @@ func cfcaObject(c *mon.Case, signer key, alg x509.SignatureAlgorithm, uniq strin
 	var tmpPub any
 	pw := ""
 	mode := "no-temp-key"
-	if (signer.kind == kSM2 || signer.kind == kRSA) && r.Intn(5) > 0 {
+	if (signer.kind == kSM2 || signer.kind == kRSA) && (r.Intn(5) > 0 || curPlan.second >= 0) {
 		var err error
 		if tmp, err = otherKey(r, signer); err != nil {
 			c.Fail("reject", "key generation: %v", err)
 			return
 		}
+		if curPlan.second >= 0 {
+			tmp = structKey(curPlan.secKind, structClass(curPlan.second))
+			if curPart == 0 {
+				c.Event("structured_keys_serialised/cfca-temporary-key/"+tmp.note, 1)
+			}
+		}
 		tmpPub = tmp.pub
 		pw = []string{"pass1234", "A", "challenge-" + fmt.Sprintf("%x", r.Bytes(6)), "口令 pw", "Zm9vYmFy+/="}[r.Intn(5)]
 		mode = "temp-key"
 	}
-	c.Class("cfca/signer=%v/alg=%s/%s", signer.kind, algName(alg), mode)
+	c.Class("cfca/signer=%v%s/alg=%s/%s%s", signer.kind, signer.note, algName(alg), mode, tmp.note)
 	var der []byte
 	var err error
 	if !c.Call("CreateCFCACertificateRequest", func() {
@@ -774,8 +872,8 @@ func cfcaObject(c *mon.Case, signer key, alg x509.SignatureAlgorithm, uniq strin
 		if p.TmpPublicKey != nil {
 			c.Fail("mismatch", "CFCA request without temporary key parses back with one (%T)", p.TmpPublicKey)
 		}
-	} else if !tmp.samePublic(p.TmpPublicKey) {
-		c.Fail("mismatch", "CFCA temporary public key parses back differently (%T)", p.TmpPublicKey)
+	} else if !tmp.samePublic(p.TmpPublicKey) { // comparison by value (X, Y, curve / N, E)
+		c.Fail("mismatch", "CFCA temporary public key (class %q) does not parse back to the key that was put in: want %s, got %s", tmp.note, pubString(tmp.pub), pubString(p.TmpPublicKey))
 	}
 	// the plain parser must agree on the common part
 	var q *smx509.CertificateRequest
@@ -837,7 +935,7 @@ func crlObject(c *mon.Case, signer key, alg x509.SignatureAlgorithm, uniq string
 	if r.Intn(4) == 0 {
 		t.ExtraExtensions = []pkix.Extension{{Id: append(append(asn1.ObjectIdentifier{}, oidVerifArc...), 4, r.Intn(1000)), Value: r.Bytes(r.Range(1, 12))}}
 	}
-	c.Class("crl/signer=%v/alg=%s/entries=%d/ext=%d", signer.kind, algName(alg), len(t.RevokedCertificateEntries), len(t.ExtraExtensions))
+	c.Class("crl/signer=%v%s/alg=%s/entries=%d/ext=%d", signer.kind, signer.note, algName(alg), len(t.RevokedCertificateEntries), len(t.ExtraExtensions))
 	var der []byte
 	var err error
 	if !c.Call("CreateRevocationList", func() { der, err = smx509.CreateRevocationList(libR, t, issuer, signer.priv) }) {
